@@ -199,8 +199,16 @@ func Tags(ch []Call, inline int, us []*Unit) []string {
 		}
 		// a named-argument string (clause.NamedExpr) holding AND/OR, handed to
 		// Or() (OR inside) or Not() (AND or OR inside)
-		if u.Render == "named" && ((kind == KOr && u.Conn == "or") || (kind == KNot && (u.Conn == "or" || u.Conn == "and"))) {
+		nconn := u.NamedConn
+		if u.Render == "named" {
+			nconn = u.Conn
+		}
+		if u.NamedWrapped || (kind == KOr && nconn == "or") || (kind == KNot && (nconn == "or" || nconn == "and")) {
 			add("named-unit-andor-under-or-not")
+		}
+		// Or(db.Or("... OR ...")): the raw fragment sits two one-element wrappers deep
+		if kind == KOr && u.WrappedRawOr {
+			add("or-call-with-single-or-group-raw-or")
 		}
 	}
 	for _, c := range ch {
